@@ -20,6 +20,21 @@ func NewLocation(f *fs.File, i bytes.Index) Location {
 		Index: i,
 		Quote: quote(f.Content(), i),
 	}
-	loc.Line, loc.Column = f.Content().LineAndColumn(i)
+	loc.Line, loc.Column = lineAndColumn(f.Content(), i)
 	return loc
+}
+
+// lineAndColumn returns the line and the column of the position i. The end of the
+// content is a position too (an "unexpected end of file" error points there, and its
+// quote is the last line): bytes.Bytes.LineAndColumn answers 0:0 for it.
+func lineAndColumn(c bytes.Bytes, i bytes.Index) (line, column bytes.Index) {
+	n := c.LenIndex()
+	if n == 0 || i != n {
+		return c.LineAndColumn(i)
+	}
+	line, column = c.LineAndColumn(n - 1)
+	if c.Byte(n-1) == c.NewLineSymbol() {
+		return line + 1, 1
+	}
+	return line, column + 1
 }
